@@ -16,6 +16,7 @@ PROFILES = {
     "reentrant": dict(rcounts=[0, 1, 2, 3, 254, 255], nids=3, nkeys=1, p_unlock=0.4, counts=[0, 0, 2, 5]),
     "waiters": dict(timeouts=[3, 5, 8, 12, 20, 30], counts=[0, 0, 0, 1, 2], nkeys=1, nids=10, p_prio=0.25, p_unlock=0.35, expr=[1, 2, 3, 5, 30]),
     "timeouts": dict(timeouts=[0, 1, 2, 3, 7, 8, 9, 10, 12, 15, 16, 17, 25], nkeys=2, nids=12, p_unlock=0.15, p_time=0.45, expr=[30, 60, 100], counts=[0, 0, 1]),
+    "longwait": dict(timeouts=[46, 50, 50, 55, 60], nkeys=1, nids=8, p_unlock=0.12, p_time=0.62, expr=[80, 100], counts=[0, 0, 1], length=(110, 170), p_cancel=0.1),
     "expiry": dict(expr=[1, 2, 3, 5, 8, 9, 10, 12, 16, 17, 25, 40], timeouts=[0, 0, 3, 20], nkeys=2, nids=8, p_unlock=0.15, p_time=0.45, p_update=0.15),
     "ack": dict(p_ack=0.5, nkeys=2, nids=6, timeouts=[0, 2, 5, 10], p_ackact=0.25),
     "role": dict(p_role=0.08, nkeys=2, p_time=0.3, expr=[1, 2, 3, 5, 10, 20], eflags=[0, 0, 0x100, 0x100]),
@@ -55,6 +56,8 @@ class Gen:
             tflag |= 0x200
         if r.random() < 0.03 and timeout <= 3:
             tflag |= 0x40
+        elif r.random() < 0.012:
+            tflag |= 0x40; timeout = r.choice([1092, 1093, 2000, 65535])     # deadline arithmetic at the unit boundary
         if r.random() < self.p.get("p_ack", 0.0):
             tflag |= 0x1000
         if r.random() < 0.02:
@@ -65,6 +68,8 @@ class Gen:
             eflag |= 0x4000
         if r.random() < 0.03 and expried <= 3:
             eflag |= 0x40
+        elif r.random() < 0.012 and expried > 0:
+            eflag |= 0x40; expried = r.choice([1092, 1093, 2000, 65535])
         data = "-"
         if self.with_data and r.random() < 0.5:
             data = self.with_data(r)
@@ -81,7 +86,7 @@ class Gen:
     def unlock_cmd(self, keys, ids, conns):
         r = self.rng
         self.req += 1
-        flag = r.choices([0, 1, 2, 3], [80, 7, 10, 3])[0]
+        flag = r.choices([0, 1, 2, 3], [80, 7, 10 + 100 * self.p.get("p_cancel", 0), 3])[0]
         rcount = r.choice([0, 0, 1, 1, 2])
         tflag = 0x10 if r.random() < 0.03 else 0
         data = "-"
@@ -179,10 +184,16 @@ class Gen:
                         lines.append("ack %d 1 aofed" % i)
                     for _ in range(ackcfg):
                         lines.append("ack %d 1 acked" % i)
+            big = any(l.split()[0] in ("req", "start") and l.split()[2] == "L" and int(l.split()[7]) & 0x40 and int(l.split()[8]) > 10 for l in lines if l[:3] in ("req", "sta"))
             for k in keys:
                 for _ in range(3):
                     self.req += 1
                     lines.append("req 1 U %d 1 0 %d 0 0 0 0 0 0 -" % (self.req, k))
+                if big:
+                    for lid in ids:
+                        for _ in range(3):
+                            self.req += 1
+                            lines.append("req 1 U %d 2 %d %d 0 0 0 0 0 0 -" % (self.req, lid, k))
             for step in [1] * 20 + [5] * 8 + [60] * 6:
                 lines += ["adv %d" % step, "sweept", "sweepe"]
             nunl = sum(1 for l in lines if l.startswith("req") and l.split()[2] == "L" and int(l.split()[9]) & 0x4000)
@@ -313,7 +324,8 @@ class Runner:
             except Exception as e:  # noqa
                 ctx.notes.append("derive_fixes unavailable: %s" % e)
         self.impl = ctx.go_build("engine_implrun", os.path.join(vlib.VERIF, "harness", "engine"),
-                                 overlay={"server/zz_verif_engine.go": "harness/engine/inj/zz_verif_engine.go"}, pkg="./cmd/implrun")
+                                 overlay={"server/zz_verif_engine.go": "harness/engine/inj/zz_verif_engine.go",
+                                          "server/zz_verif_realtime.go": "harness/engine/inj/zz_verif_realtime.go"}, pkg="./cmd/implrun")
         self.model = ctx.ocaml_model("engine", deps=["Engine/Ack.vo", "Engine/Sched.vo"])
         self.tmp = tempfile.mkdtemp(prefix="verif-eng-")
 
